@@ -133,10 +133,19 @@ def _mk_mstdp(cls, file, elig):
                 env = Env(c, mons, dict(lr_post=lr_post, lr_pre=lr_pre, delayed=False, tolerance=0.0))
             else:
                 mons, s = pair_monitors(c)
-                env = Env(c, mons, dict(lr_post=lr_post, lr_pre=lr_pre, delayed=False, tolerance=0.0))
-                dpost, dpre = b2r(s["spike_post"][0].f) * s["trace_pre"][0].f, b2r(s["spike_pre"][0].f) * s["trace_post"][0].f
+                delayed = c.choice("mode", ["undelayed", "delayed", "delay_frozen"])
+                env = Env(c, mons, dict(lr_post=lr_post, lr_pre=lr_pre, delayed=(delayed == "delayed"), tolerance=c.real("tol")), delayed_conn=(delayed != "undelayed"))
+                if delayed != "undelayed":
+                    c.require(env.conn.fields["delayedby"] > 0)
+                use_view = delayed == "delayed"
+                xpre = (s["trace_pre"][1] if use_view else s["trace_pre"][0]).f
+                ipre = (s["spike_pre"][1] if use_view else s["spike_pre"][0]).f
+                dpost, dpre = b2r(s["spike_post"][0].f) * xpre, b2r(ipre) * s["trace_post"][0].f
             out = c.outcome(c.function(file, f"{cls}.forward"), env.trainer, sig, scale)
             c.expect_return(out)
+            if not elig:
+                views = sorted(x[1] for x in env.calls if x[0] == "view")
+                c.ensure("delayed_mode_reads_pre_side_through_selector", views == (["spike_pre", "trace_pre"] if use_view else []))
             pos, neg = env.captured("weight")
             mag = sig.z * scale.z
             mag = z3.If(mag >= 0, mag, -mag)
@@ -177,7 +186,18 @@ ASSUMPTIONS = [
     "tensor-valued (per-sample) reward signals use argwhere/index along the batch axis: outside the pointwise theory, covered by the bounded stand-in only",
 ]
 
+
+# pos through the upper bound, neg through the lower bound: the Accumulator contracts (C10) are part of this property
+from pyvc.harness import REGISTRY as _REG  # noqa: E402
+from . import c10_updater as _c10  # noqa: E402,F401
+
+for _cd in list(_REG.get("C10", [])):
+    if _cd.name.startswith("Accumulator") and not any(x.name == _cd.name for x in _REG.get("C09", [])):
+        contract("C09", _cd.name, list(_cd.targets), min_obligations=_cd.min_obligations)(_cd.fn)
+
 MUTANTS = [
+    dict(file="inferno/neural/modeling.py", func="Accumulator.lowerbound", old="            self.bind[1] = lambda x, n, lb=min, k=kwargs: bound(x, n, lb, **k)", new="            self.bind[0] = lambda x, n, lb=min, k=kwargs: bound(x, n, lb, **k)", contracts=["Accumulator.update"], name="seed C09b: the lower bound is installed in the upper-bound slot"),
+    dict(file=T3, func="MSTDP.forward", old="                monitors[\"spike_pre\"].view(cell.connection.selector, state.tolerance)\n                if state.delayed and cell.connection.delayedby\n", new="                monitors[\"spike_pre\"].view(cell.connection.selector, state.tolerance)\n                if state.delayed and cell.connection.delayedby is None\n", contracts=["MSTDP.forward[scalar_signal]"], name="seed C08b: MSTDP never uses the delayed presynaptic spike view"),
     dict(file=T2, func="STDP.forward", old="match (state.lr_post >= 0, state.lr_pre >= 0):", new="match (state.lr_post >= 0, self.lr_pre >= 0):", contracts=["STDP.forward"], name="seed C09: routing by trainer default lr_pre"),
     dict(file=T2, func="STDP.forward", old="cell.updater.weight = (dpre, dpost)", new="cell.updater.weight = (dpost, dpre)", contracts=["STDP.forward"]),
     dict(file=T2, func="STDP.forward", old="ein.einsum(i_post, x_pre,", new="ein.einsum(i_post, x_post,", contracts=["STDP.forward"]),
